@@ -112,6 +112,40 @@ def loser_told_full (fx : Fixes) : Prop :=
   ∀ (t : Tree) (win b : Nat) (r : Tree × List Event), wfB t = true → takeFocus fx t win = .ok r →
     holder t = some b → holder r.1 ≠ some b → (⟨b, .focusOut, b⟩ : Event) ∈ r.2
 
+/-- The loser is told: when a window attached to the root through a visible path (`VisPath`, `Anc … 0`) takes the
+    focus from another window `b`, `b` receives an OUT event (before every IN event, by `focus_out_before_in`) —
+    for every well-formed tree; for the repaired `_focus_gained` always, for the unchanged one unless one of the two
+    windows is an ancestor of the other. -/
+theorem loser_told (fx : Fixes) (t : Tree) (win b : Nat) (r : Tree × List Event) (hwf : wfB t = true)
+    (h : takeFocus fx t win = .ok r) (hp : VisPath t win) (h0 : Anc t win 0) (hb : holder t = some b) (hne : win ≠ b)
+    (hex : fx.focusEvents = true ∨ (¬ Anc t b win ∧ ¬ Anc t win b)) :
+    (⟨b, .focusOut, b⟩ : Event) ∈ r.2 := by
+  unfold holder at hb
+  cases hbw : t.wins[chainEnd t (treeFuel t) 0]? with
+  | none => rw [hbw] at hb; cases hb
+  | some bw =>
+    rw [hbw] at hb
+    by_cases hf : bw.isFocused = true
+    · simp only [hf, if_true, Option.some.injEq] at hb
+      refine gained_tells_loser fx _ t win none r b h hwf hp h0 hb ⟨bw, hb ▸ hbw, hf⟩ (fun _ => hne)
+        (fun c hc => by cases hc) ?_
+      rcases hex with hfx | ⟨h1, h2⟩
+      · exact .inl hfx
+      · exact .inr ⟨fun _ => h1, h2⟩
+    · simp [hf] at hb
+
+/-- The repaired `_focus_gained` (fixes/C15_focus_events.patch) always tells the loser. -/
+theorem loser_told_repaired (fx : Fixes) (hfx : fx.focusEvents = true) (t : Tree) (win b : Nat)
+    (r : Tree × List Event) (hwf : wfB t = true) (h : takeFocus fx t win = .ok r) (hp : VisPath t win)
+    (h0 : Anc t win 0) (hb : holder t = some b) (hne : win ≠ b) : (⟨b, .focusOut, b⟩ : Event) ∈ r.2 :=
+  loser_told fx t win b r hwf h hp h0 hb hne (.inl hfx)
+
+/-- The unchanged `_focus_gained` tells the loser whenever neither window is an ancestor of the other. -/
+theorem loser_told_partial (t : Tree) (win b : Nat) (r : Tree × List Event) (hwf : wfB t = true)
+    (h : takeFocus Fixes.none t win = .ok r) (hp : VisPath t win) (h0 : Anc t win 0) (hb : holder t = some b)
+    (hne : win ≠ b) (h1 : ¬ Anc t b win) (h2 : ¬ Anc t win b) : (⟨b, .focusOut, b⟩ : Event) ∈ r.2 :=
+  loser_told Fixes.none t win b r hwf h hp h0 hb hne (.inr ⟨h1, h2⟩)
+
 /-- root 0 with child 1; window 1 holds the focus (history: `win 1 0 1 1 3 3 0; focus 1`). -/
 def childFocusedTree : Tree :=
   { wins := #[{ rect := ⟨0, 0, 6, 10⟩, isRoot := true, children := [1], focusedChild := some 1 },
@@ -471,6 +505,21 @@ example : ∃ r, takeFocus Fixes.none demoTree 2 = .ok r ∧
     r.2 = [⟨3, .focusOut, 3⟩, ⟨1, .focusOut, 1⟩, ⟨2, .focusIn, 2⟩] := by
   refine ⟨_, rfl, by decide⟩
 example : holder childFocusedTree = some 1 := by decide
+/-- `loser_told_partial` is not vacuous: in `demoTree` window 3 holds the focus and its cousin 2 can take it -/
+example : holder demoTree = some 3 ∧ VisPath demoTree 2 ∧ Anc demoTree 2 0 ∧ ¬ Anc demoTree 3 2 ∧ ¬ Anc demoTree 2 3 := by
+  refine ⟨by decide, .step (w := demoTree.wins[2]) rfl rfl rfl rfl (.top (w := demoTree.wins[0]) rfl rfl rfl),
+    .step (w := demoTree.wins[2]) ⟨rfl, rfl⟩ rfl (.refl 0), ?_, ?_⟩
+  · intro h
+    cases h with
+    | step hw hp hrest =>
+      have hw3 := live_unique hw (⟨rfl, rfl⟩ : Live demoTree 3 demoTree.wins[3])
+      subst hw3
+      cases hp
+      have := anc_le (by decide : wfB demoTree = true) hrest
+      omega
+  · intro h
+    have := anc_le (by decide : wfB demoTree = true) h
+    omega
 example : VisPath demoTree 3 :=
   .step (w := demoTree.wins[3]) rfl rfl rfl rfl (.step (w := demoTree.wins[1]) rfl rfl rfl rfl (.top (w := demoTree.wins[0]) rfl rfl rfl))
 /-- a short history through the history-level vocabulary: create, focus, flush -/
